@@ -34,7 +34,7 @@ PI = math.pi
 def gates(tier):
     return {'forward_value_checks': 6000, 'inverse_roundtrips': 3000, 'principal_range_checks': 1000,
             'pole_or_domain_errors': 150, 'arity_errors': 100, 'shape_errors': 300,
-            'matrix_function_checks': 600, 'arctan2_checks': 150, 'saturating_checks': 400, 'int_argument_checks': 1000, 'domain_checks_after_infinity_comparisons': 150, 'constants': 4, 'functions_covered': 35 * 16}
+            'matrix_function_checks': 600, 'arctan2_checks': 150, 'saturating_checks': 400, 'int_argument_checks': 1000, 'domain_checks_after_infinity_comparisons': 150, 'constants': 4, 'functions_covered': 35 * 16, 'exact_value_checks': 80, 'elementwise_array_function_checks': 20}
 
 
 def _c(z):
@@ -303,14 +303,18 @@ def run_scalar(ctx, table, tag):
                 ctx.violation('C15:arity:' + name, '%s with %d arguments: %r' % (name, len(args), out.brief()), wit)
         # wrong shapes
         from mitxgraders.helpers.calc import MathArray
-        for arr in (MathArray([1.0, 2.0]), MathArray([[1.0, 2.0], [3.0, 4.0]]), MathArray([[1.0, 2.0, 3.0]]),
-                    MathArray(np.ones((2, 2, 2)))):
+        shapes = (MathArray([1.0, 2.0]), MathArray([[1.0, 2.0], [3.0, 4.0]]), MathArray([[1.0, 2.0, 3.0]]), MathArray(np.ones((2, 2, 2))))
+        if name in ('re', 'im', 'conj'):
+            # elementwise on arrays of every shape, complex entries included; an array with ONE entry stays an array of its shape
+            shapes += (MathArray([2 + 3j]), MathArray([[2 + 3j]]), MathArray([1 + 2j, 3 - 1j]), MathArray([[1j, 2.0], [3 - 4j, -1j]]), MathArray([-2.5]))
+        for arr in shapes:
             out = call_fn(ctx, table, name, [arr])
             ctx.ev()
             wit = {'function': name, 'argument_shape': arr.shape, 'outcome': out.brief()}
             if name in ('re', 'im', 'conj'):
                 ref = {'re': np.real, 'im': np.imag, 'conj': np.conj}[name](np.asarray(arr))
-                if not out.returned or not close(out.value, ref):
+                ctx.count('elementwise_array_function_checks')
+                if not out.returned or np.shape(out.value) != np.shape(ref) or not close(out.value, ref):
                     ctx.violation('C15:array_function:' + name, 'expected %r, got %r' % (ref, out.brief()), wit)
                 continue
             if tag == 'matrix' and name == 'abs':
@@ -569,6 +573,32 @@ def run_matrix_functions(ctx, table):
                 ctx.violation('C15:value:%s:scalar' % nm, '%s(%r): %r' % (nm, z, out.brief()), {})
 
 
+EXACT_VALUES = (
+    # values that are exactly representable and that floor / ceil / kronecker or an exact comparison downstream depend on
+    [('log10(1%s)' % ('0' * k), float(k)) for k in range(0, 16)] + [('log10(0.1)', -1.0), ('log10(0.01)', -2.0), ('log10(0.001)', -3.0)]
+    + [('log2(%d)' % 2 ** k, float(k)) for k in range(0, 41, 3)] + [('log2(0.5)', -1.0), ('log2(0.125)', -3.0)]
+    + [('sqrt(%d)' % (k * k), float(k)) for k in (0, 1, 2, 3, 7, 12, 100, 4096)]
+    + [('floor(log10(1000))', 3), ('ceil(log10(1000))', 3), ('kronecker(log10(1000),3)', 1), ('floor(log10(1000000))+1', 7), ('floor(log2(8))', 3),
+       ('ceil(log2(1024))', 10), ('kronecker(sqrt(49),7)', 1), ('floor(sqrt(144))', 12), ('exp(0)', 1.0), ('cos(0)', 1.0), ('ln(1)', 0.0),
+       ('abs(-3)', 3.0), ('floor(-0.5)', -1), ('ceil(-0.5)', 0), ('max(1,2,3)', 3), ('min(1,-2,3)', -2), ('re(2+3*i)', 2.0), ('im(2+3*i)', 3.0),
+       ('floor(log10(1e15))', 15), ('ceil(log10(1e13))', 13)]
+)
+
+
+def run_exact_values(ctx):
+    from mitxgraders.helpers.calc import evaluator, DEFAULT_FUNCTIONS, DEFAULT_VARIABLES
+    for s_, want in EXACT_VALUES:
+        out = lib.call(ctx, lambda: evaluator(s_, DEFAULT_VARIABLES, DEFAULT_FUNCTIONS, {})[0])
+        ctx.ev()
+        ctx.count('exact_value_checks')
+        ctx.nontrivial('exact:' + s_)
+        wit = {'string': s_, 'exact_value': want, 'outcome': out.brief()}
+        if not out.returned:
+            ctx.violation('C15:exact_value:raises', repr(out.exc), wit)
+        elif not (np.ndim(out.value) == 0 and complex(out.value) == complex(want)):
+            ctx.violation('C15:exact_value:' + s_.split('(')[0], '%s = %r, exactly %r by definition' % (s_, out.value, want), wit)
+
+
 def run_constants(ctx):
     from mitxgraders.helpers.calc import evaluator
     from mitxgraders import FormulaGrader, MatrixGrader, NumericalGrader
@@ -605,6 +635,8 @@ def run(ctx):
         run_saturating(ctx, mtable)
     if ctx.shard % 4 == 3:
         run_history(ctx, ftable)
+    if ctx.shard % 8 == 5:
+        run_exact_values(ctx)
     if ctx.shard == 0:
         run_constants(ctx)
         # the matrix table must keep the scalar functions' behaviour (abs excepted)
